@@ -276,7 +276,7 @@ def build_instance(case, mixins=(), span=None, exo=('X',)):
     def prepare(m0):        # what the scripted hooks need in order to run at all
         m0.__dict__.update(script=[], before_script=[], after_script=[], calls=[], passes=[], v0=None,
                            seen_at_before=None, write_mode='inplace')
-    dtype = {'int': int, 'float32': np.float32}.get(case.get('dtype'))
+    dtype = {'int': int, 'float32': np.float32, 'object': object}.get(case.get('dtype'))
     make = (lambda sp: cls(sp, dtype=dtype)) if dtype is not None else cls
     m = with_provenance(make, list(range(n)) if span is None else span, case.get('prov', 'fresh'), names, prepare)
     for i, row in enumerate(case['vals']):
@@ -468,6 +468,8 @@ def outcome_vals(kind, prev, nE):
         v = [p + 0.125 if np.isfinite(p) else 1.0 for p in prev]
         v[-1] = (prev[-1] if np.isfinite(prev[-1]) else 0.0) - 2.0
         return v
+    if kind == 'tiny':   # a move far below float32's machine epsilon relative to 1, yet above a tolerance of 1e-10
+        return [p + 2.0 ** -26 if np.isfinite(p) else 2.0 ** -7 for p in prev]
     if kind == 'zero':   # every value exactly 0.0 (what 'replace' turns a non-finite previous value into)
         return [0.0 for p in prev]
     if kind == 'istep':  # integer-valued models: the smallest possible move (1), far above any tol < 1
